@@ -1280,7 +1280,7 @@ theorem readFn_at (k : Kind) (pre body post : Bits) (hl : ValidLen k body.length
     simp only
     have : n' = body.length := by
       cases k <;> simp [Kind.allowed, Allowed.onlyOne] at ho <;> simp [ValidLen] at hl <;> omega
-    rw [this, hdrop]; exact getFn_valid k body hl
+    rw [this, if_neg (by simp [List.length_append]), hdrop]; exact getFn_valid k body hl
   | none =>
     simp only [Dt.bitlength, Option.map_some, itemsOf_mul k _ hl]
     rw [if_neg (by simp [List.length_append]), hdrop]
